@@ -529,3 +529,68 @@ Theorem C05_non_ascii_identifier_refuted :
   /\ scan_text (spaced w3_tokens) <> Some w3_tokens.
 Proof. exact non_ascii_identifier_witness. Qed.
 Print Assumptions C05_non_ascii_identifier_refuted.
+
+(* ---- (5) byte level: the printer's separator choice as a model function ------------------------------------
+   model/ProtoPrintBytes.v [render_bytes gen imp D] = the BYTES protoprint.PrintFile writes for a descriptor D
+   without source code info (no element / option has a location, no comments: [unlocated_b]; then parseOption's
+   sourceSingleLine / inlineWithParent are true and printElements' blank-line rule never fires): fileBuffer.p
+   (pending addGap = one empty line, two spaces per level), the generated-comment header, syntax / package /
+   sorted imports / file options / extend blocks, printSection ({} form; option statements each followed by a gap),
+   printElements (gap after message / service / enum / oneof), printMethod, printField (labels, map<K, V>),
+   printFieldStyle (no option / one inline option / bracket block with trailing commas), parseOption's inline
+   strings ({} {k: v} [] scalar), printOption, printOptionArray (four forms), printOptionMessageFields. It walks
+   the syntactic file lay_file builds, i.e. order / Simplify / json_name / type names are those of the token model.
+   Tie (bytes stream): every repository proto, compiled file and hand-built descriptor of a run is rebuilt without
+   source info, printed by the REAL PrintFile, and render_bytes evaluated in Coq must give exactly those bytes.
+   Sub-class of the theorem: [bytes_modelled_b gen imp D] = unlocated_b D, the generated comment is one line, and
+   the computable layout test is_layout (tokens D) (render_bytes D) — evaluated on every case of the bytes stream
+   (all inside). NOT proved: unlocated_b D /\ wf_dfile D -> is_layout ... (the test is a hypothesis, not a lemma);
+   located descriptors (the blank-line rule on StartLine / EndLine, multi-line option sources, comments) are not
+   in render_bytes: dfile carries no EndLine / SingleLine. Last clause: the MODEL rendering of the re-read
+   descriptor D0 is the same text; D0 = canon_file D carries source lines, so the REAL second print is not this
+   function's (observed on the real code: it has more blank lines; counted by the bytes stream). *)
+From J5V.model Require Import ProtoPrintBytes.
+From J5V.proofs Require Import ProtoPrintBytesEraseProofs ProtoPrintBytesProofs.
+
+Definition C05_bytes_statement_subclass : Prop :=
+  forall (gen : list N) (imp : xsymtab) (D : dfile), wf_dfile imp D -> bytes_modelled_b gen imp D = true ->
+    let text := render_bytes gen imp D in
+    scan_text text = Some (print_file_tokens_nc (to_symtab (dfile_symtab imp D)) D)
+    /\ exists D0, read_text imp text = Some (erase_dfile D0)
+         /\ desc_equiv D D0 /\ wf_dfile imp D0
+         /\ print_file_tokens_nc (to_symtab (dfile_symtab imp D0)) D0
+            = print_file_tokens_nc (to_symtab (dfile_symtab imp D)) D
+         /\ render_bytes gen imp D0 = text.
+
+Theorem C05_bytes_roundtrip_subclass : C05_bytes_statement_subclass.
+Proof. exact bytes_roundtrip_subclass. Qed.
+Print Assumptions C05_bytes_roundtrip_subclass.
+
+(* the lexer model on the rendered bytes yields exactly the tokens the token-level theorem is about *)
+Theorem C05_scan_render_bytes : forall gen imp D, bytes_modelled_b gen imp D = true ->
+  scan_text (render_bytes gen imp D) = Some (print_file_tokens_nc (to_symtab (dfile_symtab imp D)) D).
+Proof. exact scan_render_bytes. Qed.
+Print Assumptions C05_scan_render_bytes.
+
+(* non-vacuity: a descriptor with imports, a file option, a service with an http option, a message with an option
+   statement, a field with a two-option bracket block (nested message value), a oneof, an optional and a map field
+   with json_name, a nested message, an enum with a negative value *)
+Example C05_example_bytes :
+  wf_dfile ProtoPrintFileExample.ex_imp Ex.ex_bytes_file
+  /\ bytes_modelled_b Ex.ex_gen ProtoPrintFileExample.ex_imp Ex.ex_bytes_file = true.
+Proof. exact example_bytes. Qed.
+Print Assumptions C05_example_bytes.
+
+(* in the sub-class the comment-free tokens are ALL the tokens the printer model writes: the lexer model reads the
+   rendered bytes as exactly the token list C05_token_roundtrip is about *)
+Theorem C05_scan_render_bytes_tokens : forall gen imp D, bytes_modelled_b gen imp D = true ->
+  scan_text (render_bytes gen imp D) = Some (print_file_tokens (to_symtab (dfile_symtab imp D)) D).
+Proof. exact scan_render_bytes_tokens. Qed.
+Print Assumptions C05_scan_render_bytes_tokens.
+
+(* a descriptor without source info has no comments (all descriptors, any nesting): the laid-out file is its own
+   comment-free form, the printer model writes no comment pseudo token *)
+Theorem C05_unlocated_no_comments : forall st D, unlocated_b D = true ->
+  erase_sfile (lay_file st D) = lay_file st D /\ print_file_tokens_nc st D = print_file_tokens st D.
+Proof. exact unlocated_no_comments. Qed.
+Print Assumptions C05_unlocated_no_comments.
